@@ -89,6 +89,28 @@ def skip : Mode → Nat → List Ch → Nat × List Ch
        | k' + 1 => skip (.block k') (p + c.len + d.len) r')
     else skip (.block k) (p + c.len) (d :: r')
 
+/-- REGRESSION VARIANT, kept for a witness only (`LexProps.advancing_scanner_runs_past_star_star_slash_witness`):
+    the block-comment loop with `advance()` in place of the look-ahead —
+    `match self.advance() { Some('/') => if self.advance() == Some('*') { depth += 1 }, Some('*') => if
+    self.advance() == Some('/') { depth -= 1 }, Some(_) => {}, None => break }`.  The character after a `/` or
+    a `*` is consumed whatever it is, so in `**/` the second `*` is swallowed as the successor of the first and
+    the closing mark is missed.  Arguments: enclosing comments still open, position, rest; answer: position and
+    rest when the loop ends. -/
+def skipBlockAdvancing : Nat → Nat → List Ch → Nat × List Ch
+  | _, p, [] => (p, [])
+  | _, p, [c] => (p + c.len, [])
+  | k, p, c :: d :: r =>
+    if c.cp = 47 then
+      (if d.cp = 42 then skipBlockAdvancing (k + 1) (p + c.len + d.len) r
+       else skipBlockAdvancing k (p + c.len + d.len) r)
+    else if c.cp = 42 then
+      (if d.cp = 47 then
+        (match k with
+         | 0 => (p + c.len + d.len, r)
+         | k' + 1 => skipBlockAdvancing k' (p + c.len + d.len) r)
+       else skipBlockAdvancing k (p + c.len + d.len) r)
+    else skipBlockAdvancing k (p + c.len) (d :: r)
+
 /-! ### scanning -/
 
 /-- `while let Some(c) = self.peek() { if f(c) { advance } else { break } }` -/
